@@ -4,13 +4,16 @@ from ..flow import resolver, peel, root_local, guards_of
 from ..symexec import SymExec, variant_name, path_variants
 from ..facts import AnchorMissing, op_const_int
 
-LEVEL = ("decides the blocking-clause mechanism: the clause ranges over every domain of the solution "
-         "(no filtering/skipping adaptor; domain enumeration starts after the dummy and ends at "
+LEVEL = ('decides the blocking-clause mechanism: the clause ranges over every domain of the solution '
+         '(no filtering/skipping adaptor; domain enumeration starts after the dummy and ends at '
          "num_domains) with one `!=` predicate on that domain's own value; it is stored on the "
-         "Satisfiable arm and added — before the next solve, on every path — at the next call; the "
-         "result mapping (Satisfiable→Solution, Unsatisfiable→Finished iff a solution was seen, "
-         "Unknown→Unknown, failed blocking clause→Finished). Does not decide that the underlying "
-         "solves are correct (C01/C02)")
+         'Satisfiable arm and added — before the next solve, on every path — at the next call; the '
+         'result mapping (Satisfiable→Solution, Unsatisfiable→Finished iff a solution was seen, '
+         'Unknown→Unknown, failed blocking clause→Finished). Also decides kernel hygiene the blocking '
+         'clauses rely on: no element skipped after swap_remove, nogoods deleted only when not a '
+         'reason (B4/B5), implicit reasons imply their predicate (B6), the nogood propagator looks at '
+         'exactly the watchers whose predicate became true and never drops an unvisited one (B7/B8). '
+         'Does not decide that the underlying solves are correct (C01/C02)')
 TECHNIQUE = "static analysis: callee-set / def-use / must-pass / symbolic table over rustc MIR"
 
 ADAPTORS_OK = {"map", "collect", "into_iter", "iter", "copied", "cloned", "rev"}
